@@ -269,7 +269,8 @@ m('c15-shared-reentrant-lock', 'C15', 'cache.py', "        lock = FileLock(str(f
   "        if not hasattr(self, '_locks'):\n            self._locks = {}\n        lock = self._locks.setdefault(str(filepath), FileLock(str(filepath) + '.lock', mode=0o664, thread_local=False))\n        with lock:\n            filepath_exists = filepath.exists()\n        if filepath_exists and not force:")
 m('c15-lockfree-fast-path', 'C15', 'cache.py', "        lock = FileLock(str(filepath) + '.lock', mode=0o664)\n        with lock:\n            filepath_exists = filepath.exists()\n        if filepath_exists and not force:",
   "        lock = FileLock(str(filepath) + '.lock', mode=0o664)\n        filepath_exists = filepath.exists()\n        if filepath_exists and not force:")
-m('c15-write-via-append', 'C15', 'cache.py', "        with filepath.open('w', encoding='utf-8') as f:\n            json.dump({'key': key, 'value': value}, f)", "        filepath.unlink(missing_ok=True)\n        with filepath.open('a', encoding='utf-8') as f:\n            json.dump({'key': key, 'value': value}, f)")
+# (removed: `unlink` + append-write instead of truncate-write under the lock. The only observable difference is that a lock-free load of `get` meets a MISSING file
+#  instead of an EMPTY one while the forced writer holds the lock; both end in NO_VALUE, which the property's exclusions allow while a write overlaps -- equivalent)
 
 
 def make_scratch():
